@@ -50,6 +50,8 @@ pat(r"inval = \*start;", lambda m: [Ev("RELOAD", "direct")])
 pat(r"uint8_t inval = \*\*start;", lambda m: [Ev("DECL", "inval"), Ev("RELOAD", "indirect")])
 pat(r"uint8_t inval = \*start;", lambda m: [Ev("DECL", "inval"), Ev("RELOAD", "direct")])
 pat(r"if \((" + H + r")\) return (?:" + H + r"|\w+)_(DONE|FAIL);", lambda m: [Ev("RET_IF_STATE_IN", m.group(1), m.group(2))])
+# (F-128) end(): an action of the taken end transition left for a state that answers differently - re-dispatch there, end-of-input still pending
+pat(r"if \((" + H + r")\) goto repeatswitch;", lambda m: [Ev("REDISPATCH_IF_STATE_IN", m.group(1))])
 pat(r"return (?:" + H + r"|\w+)_(OK|FAIL|DONE);", lambda m: [Ev("RET", m.group(1))])
 pat(r"return (?:" + H + r"|\w+)_(FINISH|YIELD)_(.*);", lambda m: [Ev("RET", m.group(1), None, m.group(2))])
 pat(r"default: return (?:" + H + r"|\w+)_(\w+);", lambda m: [Ev("DEFAULT"), Ev("RET", m.group(1))])
